@@ -1,5 +1,6 @@
 mod dev;
 mod gen;
+mod imggen;
 mod model;
 mod ops;
 mod props;
@@ -68,8 +69,8 @@ fn main() {
         Some("thorough") => Tier::Thorough,
         _ => Tier::Quick,
     };
-    let code = match props::hist_prop(id) {
-        Some(hp) => props::hist::run(&hp, tier, seed),
+    let code = match props::run(id, tier, seed) {
+        Some(c) => c,
         None => {
             eprintln!("unknown property {}", id);
             2
